@@ -66,7 +66,7 @@ var propSpecs = map[string]PropSpec{
 		Kinds: kinds("cli", "hdr", "obj", "file", "shape"), Cases: [2]int{160, 3000}, Oracles: []string{"C15"},
 		Corr: "corr.C15.siftool (exit status, dump output and the file's full view after every siftool invocation = Model/Siftool.lean composed with the library model)"},
 	"C14": {Profile: Profile{MaxCap: 6, MaxOps: 20, BigData: true, Backends: []string{"buf"}, Rejects: 120, DetBias: 1000, FailReaders: true},
-		Kinds: kinds("res", "hdr", "obj", "file", "rl", "shape"), Cases: [2]int{350, 6000}, Backends: true,
+		Kinds: kinds("res", "hdr", "obj", "file", "rl", "shape", "st"), Cases: [2]int{350, 6000}, Backends: true,
 		Corr: "corr.C14.backends (Lean Buffer model = sif.Buffer, Lean file model = os.File, same histories)"},
 }
 
@@ -207,6 +207,14 @@ func runHistory(dir string, seed uint64, spec PropSpec, shipped string) (*Case, 
 		}
 		return c, vs, g.stats
 	}
+	if spec.Backends && shipped == "" && r.Chance(1, 3) {
+		// C14: a raw call sequence on the bare backing store (replayed on the other backend later)
+		for _, op := range g.stSequence("buf") {
+			emit(op)
+		}
+		g.count("case:raw-store-calls")
+		return c, vs, g.stats
+	}
 	if shipped != "" {
 		lo := emit(&Op{Kind: "load", Backend: pick(r, g.p.Backends), Path: shipped})
 		g.count("shipped-image")
@@ -289,6 +297,9 @@ func nontrivial(c *Case) bool {
 		}
 		if op.Kind == "obs" || op.Kind == "q" {
 			obs = true
+		}
+		if op.Kind == "st" && (op.St.Call == "write" || op.St.Call == "trunc") {
+			mut, obs = true, true // every raw call line carries the store's state
 		}
 	}
 	return mut && obs
@@ -640,6 +651,11 @@ func otherBackendC14(dir string, c *Case) (*Violation, *Case) {
 		cp := *op
 		if cp.Kind == "create" {
 			cp.Backend = "file"
+		}
+		if cp.Kind == "st" && cp.St.Call == "new" {
+			st := *cp.St
+			st.Be = "file"
+			cp.St = &st
 		}
 		ops[i] = &cp
 	}
